@@ -136,7 +136,7 @@ func normalizeHeaderValueBytes(field, value string) string {
 		return normalizeOrderInsensitive(value)
 
 	case hasNormalizationHeader(normalizationHeader.byCaseInsensitive, field):
-		return strings.ToLower(value)
+		return asciiLower(value)
 
 	case hasNormalizationHeader(normalizationHeader.byTimeInsensitive, field):
 		return strings.TrimSpace(value)
@@ -152,7 +152,7 @@ func normalizeHeaderValueBytes(field, value string) string {
 		} else if j := strings.IndexAny(value, "/?#"); j >= 0 {
 			end = j
 		}
-		return strings.ToLower(value[:end]) + value[end:]
+		return asciiLower(value[:end]) + value[end:]
 
 	case field == "Authorization":
 		parts := strings.SplitN(value, " ", 2)
@@ -164,6 +164,19 @@ func normalizeHeaderValueBytes(field, value string) string {
 	default:
 		return value
 	}
+}
+
+// asciiLower lower-cases the ASCII letters of s and leaves every other byte as
+// it is. (strings.ToLower replaces bytes that are not valid UTF-8 - legal
+// obs-text in a field value - by U+FFFD, which makes different values equal.)
+func asciiLower(s string) string {
+	b := []byte(s)
+	for i, c := range b {
+		if 'A' <= c && c <= 'Z' {
+			b[i] = c + 'a' - 'A'
+		}
+	}
+	return string(b)
 }
 
 // normalizeOrderInsensitive normalizes comma-separated values where order doesn't matter.
